@@ -12,7 +12,7 @@ Require Import Base.Bits Base.Iter Base.Wr Gen.Consts Gen.Types Gen.Preds Model.
   Model.Muxer Model.Reader Model.Demux Model.DemuxFull Spec.MuxSpec Spec.PesSpec Spec.PacketSpec
   Proofs.LossProofs Proofs.UnitsProofs Proofs.PesRoundTrip Proofs.MuxerProofs Proofs.MuxerPackets Proofs.DemuxProofs
   Proofs.PsiSiLink Proofs.PsiDescLink Proofs.RoundTripPkt Proofs.RoundTripDemux Proofs.RoundTripUnit Proofs.RoundTripL1
-  Proofs.RoundTripTables Proofs.RoundTripMux Proofs.RoundTripRun Proofs.RoundTripExamples.
+  Proofs.PsiUserDesc Proofs.RoundTripTables Proofs.RoundTripMux Proofs.RoundTripRun Proofs.RoundTripDesc Proofs.RoundTripExamples.
 Import ListNotations.
 Open Scope Z_scope.
 
@@ -136,6 +136,14 @@ Theorem C01_roundtrip_nodesc : forall period ops, history_ok no_desc16 (new_muxe
   map Ok (expect (new_muxer period) [] ops).
 Proof. exact roundtrip_history_nodesc. Qed.
 Print Assumptions C01_roundtrip_nodesc.
+
+(* ... and for streams whose descriptors are user-defined (private: tags 0x80..0xFE, bodies of 0..255 bytes, given with
+   Length = body size as a parser returns them) or absent *)
+Theorem C01_roundtrip_user_desc : forall period ops, history_ok ud_desc (new_muxer period) ops ->
+  demux_all (concat (map mout_bytes (snd (mux_run (new_muxer period) ops)))) =
+  map Ok (expect (new_muxer period) [] ops).
+Proof. exact roundtrip_history_ud. Qed.
+Print Assumptions C01_roundtrip_user_desc.
 
 (* the same read per PID, as the property is worded: every result is Ok, and for every PID other than those of the
    tables the data delivered on it are exactly the PES written on it -- one per successful WriteData, in call order
